@@ -130,3 +130,142 @@ def plain_fn(x):
 
 UNTYPED_CLASSES = [Any2, Writable, Notifier, Bound, NoSymCmp]
 TYPED_CLASSES = [Typed, TypedSub, Required, TypedNotifier, Inner]
+
+
+# ---------------------------------------------------------------------------
+# C20 (HTML views): classes whose documentation, field descriptions, default /
+# frozen values and *names* carry HTML payloads, each with a benign twin of the
+# same shape in which every character outside [A-Za-z0-9] is a 'q'.
+# Not part of UNTYPED_CLASSES / TYPED_CLASSES (other checks never build them).
+# ---------------------------------------------------------------------------
+
+def html_twin(s):
+  """Same-length benign twin of a payload string."""
+  return ''.join(c if (c.isascii() and c.isalnum()) else 'q' for c in s)
+
+
+_HDOC = ('Doc </span></div></summary></details><zq17 zq17="1"> & "dq" \'sq\' '
+         '--> ]]> </script></style> \\ end.')
+_HFIELD = 'field <zq17 zq17="1"> "x" </td></tr></table> &amp; --> ]]>'
+_HDEFAULT = 'dflt"><zq17 zq17="1"></span>&lt;'
+_HFROZEN = 'frzn\'><zq17 zq17="1"></div>-->'
+
+
+class HDoc(pg.Object):
+  __doc__ = _HDOC
+  x: T.Annotated[T.Any(), _HFIELD] = None
+  dflt: T.Annotated[T.Str(), _HFIELD] = _HDEFAULT
+  fz: T.Annotated[T.Str().freeze(_HFROZEN), _HFIELD]
+
+
+class TDoc(pg.Object):
+  __doc__ = html_twin(_HDOC)
+  x: T.Annotated[T.Any(), html_twin(_HFIELD)] = None
+  dflt: T.Annotated[T.Str(), html_twin(_HFIELD)] = html_twin(_HDEFAULT)
+  fz: T.Annotated[T.Str().freeze(html_twin(_HFROZEN)), html_twin(_HFIELD)]
+
+
+@pg.members([(T.StrKey(), T.Any(), _HFIELD)])
+class HDyn(pg.Object):
+  """Object with arbitrary (dynamic) field names."""
+  __doc__ = _HDOC
+
+
+@pg.members([(T.StrKey(), T.Any(), html_twin(_HFIELD))])
+class TDyn(pg.Object):
+  __doc__ = html_twin(_HDOC)
+
+
+def _named_class(name):
+  return type(name, (pg.Object,), {
+      '__module__': __name__, '__annotations__': {'x': T.Any(), 'y': T.Any()},
+      'x': None, 'y': None})
+
+
+_HNAME_ELEM = 'Ne<zq17 zq17="1">'        # element injection from a text position
+_HNAME_ATTR = 'Na" zq17="1'              # attribute injection from a quoted value
+HNameElem = _named_class(_HNAME_ELEM)
+TNameElem = _named_class(html_twin(_HNAME_ELEM))
+HNameAttr = _named_class(_HNAME_ATTR)
+TNameAttr = _named_class(html_twin(_HNAME_ATTR))
+
+# The one hostile class name Python produces on its own: '<lambda>'.
+h_lambda = pg.functor()(lambda x=None, y=None: x)
+
+
+def qlambdaq(x=None, y=None):
+  return x
+
+
+t_lambda = pg.functor()(qlambdaq)
+
+
+class ReprLeaf:
+  """Non-symbolic leaf whose repr()/str() is an arbitrary string."""
+
+  def __init__(self, text):
+    self.text = text
+
+  def __repr__(self):
+    return self.text
+
+  def __eq__(self, other):
+    return isinstance(other, ReprLeaf) and self.text == other.text
+
+  def __ne__(self, other):
+    return not self.__eq__(other)
+
+  def __hash__(self):
+    return hash(('ReprLeaf', self.text))
+
+
+class CtxChild(pg.ContextualObject):
+  v: T.Any() = pg.contextual_attribute()
+
+
+class CtxParent(pg.ContextualObject):
+  v: T.Any() = None
+  child: T.Any() = None
+
+
+# kind -> {class key: (hostile class, twin class)}
+HTML_CLASS_PAIRS = {
+    'doc': {'Doc': (HDoc, TDoc), 'Dyn': (HDyn, TDyn)},
+    'class-name': {'NameElem': (HNameElem, TNameElem),
+                   'NameAttr': (HNameAttr, TNameAttr),
+                   'Lambda': (h_lambda, t_lambda)},
+}
+
+
+# ---------------------------------------------------------------------------
+# C09 (change notification / derived-state freshness): typed recording classes,
+# so that `is_partial` / `sym_missing()` / `sym_nondefault()` change below a
+# subscribed node. Not part of UNTYPED_CLASSES / TYPED_CLASSES.
+# ---------------------------------------------------------------------------
+
+class ReqNotifier(pg.Object):
+  """Required and defaulted fields + an overridden `_on_change` that logs."""
+  r: T.Int()
+  rd: T.Dict([('a', T.Int()), ('b', T.Int(default=2))])
+  w: T.Any() = None
+  ws: T.List(T.Any()) = []
+
+  def _on_change(self, field_updates):
+    _record(self, 'change', field_updates)
+    super()._on_change(field_updates)
+
+
+class TypedBound(pg.Object):
+  """Typed fields, overrides only `_on_bound` (which logs)."""
+  n: T.Int(min_value=0) = 0
+  v: T.Any() = None
+  vs: T.List(T.Any()) = []
+  vd: T.Dict() = {}
+
+  def _on_bound(self):
+    super()._on_bound()
+    _record(self, 'bound', None)
+
+
+C09_CHANGE_CLASSES = (Notifier, TypedNotifier, ReqNotifier)
+C09_BOUND_CLASSES = (Bound, TypedBound)
